@@ -124,7 +124,7 @@ func measure(ci *clusters.ClusterInfo, name string) string {
 	return fmt.Sprint(n)
 }
 
-var cfgCompared int64
+var cfgCompared, candidatesUnobservable int64
 
 func observe(gw *bed.Gateway) *Obs {
 	o := &Obs{Resolution: map[string]string{}, Clusters: map[string]*CObs{}}
@@ -196,13 +196,27 @@ func observe(gw *bed.Gateway) *Obs {
 				co.Routing[p.name] = "error: " + err.Error()
 				continue
 			}
+			// Candidate endpoints of the matched policy (its upstream subset, else all endpoints), independent of
+			// readiness: readiness comes from health probes, not from the object, and is not what this property compares
+			// (health_test.go covers probing). Every endpoint is unreachable by construction, so marking all of them
+			// unhealthy only anticipates what their probes report; Pop() then fails and names every candidate.
 			var eps []string
-			if _, perr := pk.Pop(); perr != nil {
-				for _, m := range epRe.FindAllStringSubmatch(perr.Error(), -1) {
-					eps = append(eps, m[1])
+			observed := false
+			for try := 0; try < 3 && !observed; try++ {
+				ci.Endpoints.Range(func(_ string, ep *clusters.EndpointInfo) bool {
+					ep.UpdateStatus(false, "VerifObservation", "marked unhealthy to list the candidates")
+					return true
+				})
+				if _, perr := pk.Pop(); perr != nil {
+					for _, m := range epRe.FindAllStringSubmatch(perr.Error(), -1) {
+						eps = append(eps, m[1])
+					}
+					observed = true
 				}
-			} else {
-				eps = []string{"<an endpoint is ready>"}
+			}
+			if !observed {
+				atomic.AddInt64(&candidatesUnobservable, 1)
+				eps = []string{"<not observable>"}
 			}
 			sort.Strings(eps)
 			co.Routing[p.name] = fmt.Sprintf("flowcontrol=%s log=%v candidates=%v limiter={%s}", pk.FlowControlName(), pk.EnableLog(), eps, pk.FlowControl().String())
@@ -1151,6 +1165,7 @@ func TestCheck(t *testing.T) {
 		r.Require(r.Counter("requeues") >= int64(nh/4), "too few requeues")
 		r.Require(r.Counter("redeliveries") >= int64(nh/4), "too few re-deliveries")
 		r.Require(r.Counter("clusters_compared") >= int64(nh), "too few clusters compared")
+		r.Require(atomic.LoadInt64(&candidatesUnobservable) == 0, "the candidate endpoints of a policy could not be listed (an unreachable endpoint kept reporting ready)")
 		r.Require(atomic.LoadInt64(&cfgCompared) >= int64(nh), "the recorded schema configuration (Config()) could not be read from the limiter")
 		for _, f := range []string{"gates", "schemas", "global-only-change", "cert", "delete", "conflict", "stale-macro"} {
 			r.Require(feat[f] >= nh/20, "history feature "+f+" under-represented")
